@@ -13,7 +13,8 @@ NOTE = ("Trusted: Coq 8.16.1 kernel (full .vo build, vm_compute for finite sweep
 
 CLAIMED = {
     "C13": ("Theorems (for every byte string, invalid UTF-8 included): @uri|@urid, @html|@htmld and @base64|@base64d (strict decoder) "
-            "return the input; per byte (all 256) decoding undoes encoding whatever follows; a POSIX shell reading the word @sh produces "
+            "return the input; the base64 decoder accepts nothing but encodings (an accepted text is the encoding of its result: malformed, "
+            "truncated or non-canonical input is rejected, never shortened; decoding is injective); per byte (all 256) decoding undoes encoding whatever follows; a POSIX shell reading the word @sh produces "
             "recovers exactly the original bytes; explode|implode returns every byte string (a decoded character is a scalar value whose "
             "encoding is the bytes read; invalid bytes travel as negative numbers); the pieces of split joined by the separator are the "
             "string; the ASCII case maps change nothing but letters and never a byte >= 128. Correspondence: the codec filters, explode/implode, tobytes, split/join, ascii case "
@@ -166,7 +167,7 @@ CLAIMED = {
             "manual's defining equations (limit/skip/first/last/nth/isempty/any/all/add/range/repeat/recurse/while/until/select/"
             "reduce/foreach expansions) as program pairs with equal output streams.", "7.11",
             "Coq proof + model/implementation correspondence + defining-equation oracle"),
-    "C12": ("Theorems: the stable sort of the model returns a permutation of its input of equal length; for every comparison that is a total preorder the result is sorted and stable (each equivalence class keeps its order); sort on arrays of integers of any size is the numeric sort; group_by returns the maximal runs of equal keys of the sorted keyed list and their concatenation is what sort_by returns; min_by/max_by return an element of the input whose keys are extremal (for every class of numbers on which the order is a total preorder); `indices($x)` on arrays and byte strings lists, increasing and each once, exactly the positions at which the window of the needle's length exists and equals the needle, overlapping occurrences included (Proofs/SearchLaws.v). Correspondence + oracle: "
+    "C12": ("Theorems: the stable sort of the model returns a permutation of its input of equal length; for every comparison that is a total preorder the result is sorted and stable (each equivalence class keeps its order); sort on arrays of integers of any size is the numeric sort; group_by returns the maximal runs of equal keys of the sorted keyed list and their concatenation is what sort_by returns; min_by/max_by return an element of the input whose keys are extremal (for every class of numbers on which the order is a total preorder); `indices($x)` on arrays and byte strings lists, increasing and each once, exactly the positions at which the window of the needle's length exists and equals the needle, overlapping occurrences included (Proofs/SearchLaws.v), and on text strings exactly the character positions at whose byte offset the needle stands (Proofs/SearchText.v). Correspondence + oracle: "
             "50 documented equations (sort_by/group_by/unique_by/min_by/max_by/keys/entries/indices/flatten/transpose/paths/pick/"
             "walk/del/join/trimstr/tonumber/...) as program pairs on arrays/objects with duplicates, ties, mixed types, empties and "
             "non-string keys, plus Python references for sort/unique/indices.", "7.12",
